@@ -125,7 +125,7 @@ def check(case):
         judged, offdiag = 0, False
         for pt in case["points"]:
             j, sc = jet_ref(env, recipe, order, pt, pv, second=True)
-            if not sc.ok or sc.maxabs > 1e6 or sc.sing < 0.1:
+            if not sc.ok or sc.maxabs > 1e4 or sc.sing < 0.1:  # second derivatives are judged in the well-conditioned regime
                 continue
             ref, shadow = j.H, j.aH
             if not np.all(np.isfinite(ref)):
